@@ -252,6 +252,13 @@ func (e *End) Close() error {
 	return nil
 }
 
+// Closed reports whether Close was called on this endpoint.
+func (e *End) Closed() bool {
+	e.mu.Lock()
+	defer e.mu.Unlock()
+	return e.closed
+}
+
 type addr string
 
 func (a addr) Network() string { return "scriptconn" }
